@@ -196,9 +196,18 @@ class LayoutTable(dict):
             return None
         qsegs = q.split("::")[:-1]
         hits = []
+        def subseq(a, b):
+            it = iter(b)
+            return all(x in it for x in a)
+
+        exact = [val for modpath, val in self.amb[name] if qsegs and (modpath.split("::") == qsegs or modpath.split("::")[1:] == qsegs)]
+        if len(exact) == 1:
+            return exact[0]
         for modpath, val in self.amb[name]:
             msegs = modpath.split("::")
-            if qsegs and (msegs[-len(qsegs):] == qsegs or qsegs[-len(msegs):] == msegs or msegs[1:][-len(qsegs):] == qsegs):
+            # rustc prints the definition path (local crate: without the crate name) or a re-export path that
+            # skips inner modules (`fe2o3_amqp_types::performatives::Disposition` for ..::performatives::disposition::Disposition)
+            if qsegs and subseq(qsegs, msegs):
                 hits.append(val)
         if len(hits) == 1:
             return hits[0]
@@ -237,6 +246,15 @@ def parse_layouts(paths):
             continue
         src = re.sub(r"//[^\n]*", "", src)
         src = re.sub(r"/\*.*?\*/", "", src, flags=re.S)
+        # test-only modules are not part of the library (they may re-declare a type under its own name)
+        while True:
+            tm = re.search(r"#\[cfg\(test\)\]\s*(?:#\[[^\]]*\]\s*)*(?:pub(?:\([^)]*\))?\s+)?mod\s+\w+\s*\{", src)
+            if not tm:
+                break
+            body = _balanced(src, tm.end() - 1)
+            if body is None:
+                break
+            src = src[: tm.start()] + src[tm.end() + len(body) + 1 :]
         for m in re.finditer(r"\bstruct\s+(\w+)\s*(?:<[^{;]*?>)?\s*(?:where[^{]*)?\{", src):
             body = _balanced(src, m.end() - 1)
             if body is None:
@@ -609,6 +627,12 @@ class Executor:
             val, cty = self.consts[last]
             w = INT_BITS.get(norm_type(ty or cty or "usize"), INT_BITS.get(norm_type(cty or "usize"), 64))
             return z3.BitVecVal(val, w)
+        m = re.match(r"(\w+(?:::\w+)*)::(\w+)::\{constant#0\}$", c)
+        if m and m.group(2) in self.enums.get(m.group(1), {}):
+            # the discriminant expression of a fieldless enum variant (`EncodingCodes::Uuid as u8`)
+            vals = self.enums[m.group(1)]
+            w = INT_BITS.get(norm_type(ty or ""), 8 if max(vals.values()) < 256 else 32)
+            return z3.BitVecVal(vals[m.group(2)], w)
         m = re.match(r"(\w+(?:::\w+)*)::(\w+)$", c)
         if m and m.group(2) in self.enums.get(m.group(1), {}):
             a = Agg(c)
